@@ -174,12 +174,24 @@ pub fn build_tracer(sc: &Scenario) -> Result<Tracer, String> {
         .map_err(|e| e.to_string())
 }
 
+/// A generous upper bound on the socket calls a terminating run of `sc` can make; a run
+/// that exceeds it is cut off and reported as not terminating.
+#[must_use]
+pub fn call_budget(sc: &Scenario) -> u64 {
+    let t = &sc.tracer;
+    let step = t.read_timeout_ns.max(3 * sc.faults.tick_base_ns).max(1);
+    let iters = t.max_round_ns / step + 2;
+    let per_iter: u64 = if t.proto == Proto::Tcp { 300 } else { 8 };
+    u64::from(t.rounds.max(1)) * (iters + 600) * per_iter * 4 + 100_000
+}
+
 /// Run `sc` to completion on the calling thread, drawing run-time decisions from `tape`.
 pub fn run_scenario(sc: Scenario, tape: Tape, opts: RunOpts) -> RunRecord {
     install_panic_hook();
     let tick_seed = simcore::mix64(u64::from(sc.tracer.initial_seq) ^ (u64::from(sc.net.ecmp_salt) << 20) ^ 0x71c6);
     let t_start = clock::EPOCH_NS + u64::from(sc.net.ecmp_salt % 1000) * 1_000_003;
     let mut world = World::new(sc.clone(), tape);
+    world.call_budget = call_budget(&sc);
     if let Some(m) = sc.mutation {
         // the enumerated corruption is part of what distinguishes one run from another
         let key = (u64::from(m.field) << 40) | (u64::from(m.value) << 20) | u64::from(m.trunc.map_or(0xfffff, u32::from));
